@@ -546,6 +546,9 @@ class ForRangeLoop:
     #: evaluate ``count`` once before the first iteration (Python's semantics) because
     #: the loop body may change its value
     hoist_count: bool = False
+    #: the body re-binds the loop variable; iterate with a private counter so that,
+    #: as in Python, this does not change the number or the values of iterations
+    private_counter: bool = False
 
 
 @dataclass
